@@ -62,6 +62,10 @@ class Ctx:
         self.assumed_used = set()  # names of npc/pyc contracts reached
         self.stub_calls = []
         self.approx_used = False
+        self.width_hint = {}
+        self.fp_exact_proved = 0
+        self.fp_approx = 0
+        self.bits_memo = {}
 
     # -- fresh symbols ------------------------------------------------------------------
     def fresh(self, base, sort='int'):
@@ -279,6 +283,8 @@ class Ctx:
         r = self.fresh('mr', 'int')
         self.solver.add(a == q * m + r, r >= 0, r < m)
         self.mod_memo[key] = (r, q, a)
+        if m & (m - 1) == 0:
+            self.width_hint[r.get_id()] = (m.bit_length() - 1, r)
         return r
 
     def div(self, a, m):
@@ -289,6 +295,19 @@ class Ctx:
             return z3.IntVal(a.as_long() // m)
         self.mod(a, m)
         return self.mod_memo[(a.get_id(), m)][1]
+
+    def bits(self, t, n):
+        """witness bits b_0..b_{n-1} of an Int term known to lie in [0, 2^n) (bit-blasting for small n)"""
+        key = (t.get_id(), n)
+        hit = self.bits_memo.get(key)
+        if hit is not None:
+            return hit[0]
+        bs = [self.fresh('bit', 'int') for _ in range(n)]
+        for b in bs:
+            self.solver.add(b >= 0, b <= 1)
+        self.solver.add(t == z3.Sum([bs[i] * (1 << i) for i in range(n)]) if n else t == 0)
+        self.bits_memo[key] = (bs, t)
+        return bs
 
     def ufunc(self, name, *sorts):
         f = self.uf.get(name)
@@ -799,19 +818,19 @@ def dyadic_of(x):
     return None
 
 def side_float_exact(iw, what):
-    """FP-exact side obligation: the exact result iw/2^g is a double when |iw| <= 2^53.
-    Returns True when proved (or trivially true)."""
+    """FP-exact side condition: the exact result iw/2^g is a double when |iw| <= 2^53.  Proved under the
+    path condition when possible; otherwise the caller falls back to the sound over-approximation
+    (approx_float), so an unproved side condition never makes a discharged clause unsound."""
     iw = z3.simplify(iw)
     if z3.is_int_value(iw):
         v = abs(iw.as_long())
-        # exact iff v has at most 53 significant bits
         while v and v % 2 == 0:
             v //= 2
-        ok = v < TWO53
-        if not ok:
-            CTX.notes.append('float-inexact(concrete) at %s' % what)
-        return ok
-    return CTX.prove('fp-exact:' + what, z3.And(iw <= TWO53, iw >= -TWO53), kind='side')
+        return v < TWO53
+    ok = CTX.valid(z3.And(iw <= TWO53, iw >= -TWO53))
+    if ok:
+        CTX.fp_exact_proved += 1
+    return ok
 
 def float_result(iw, g, what):
     """Build the float iw/2^g after emitting the exactness side obligation.
@@ -826,12 +845,20 @@ def float_result(iw, g, what):
 
 def approx_float(e, what):
     """A double within relative 2^-53 of the exact real e (sound over-approximation of one correctly
-    rounded IEEE operation).  Obligations that fail on a path that used this are confirmed by replay."""
+    rounded IEEE operation; a function of e: the same exact value always rounds to the same double).
+    Obligations that fail on a path that used this are confirmed by replay."""
+    e = z3.simplify(e)
+    key = ('rnd', e.get_id())
+    hit = CTX.mod_memo.get(key)
+    if hit is not None:
+        return SNum(hit[0])
     CTX.notes.append('float rounding over-approximated at %s' % what)
     CTX.approx_used = True
+    CTX.fp_approx += 1
     r = CTX.fresh('rnd', 'real')
     ae = z3.If(e >= 0, e, -e)
     CTX.solver.add(r - e <= ae * zreal(Fraction(1, 2**53)), e - r <= ae * zreal(Fraction(1, 2**53)))
+    CTX.mod_memo[key] = (r, e)
     return SNum(r)
 
 def to_float(x, what='int->float'):
@@ -965,15 +992,46 @@ def _int_bitop(op, a, b):
                 if op == 'and':
                     return 0
                 return x
-    # general: uninterpreted bit function with range facts for non-negative operands (B4)
+    # general case
     ta, tb = zint(a), zint(b)
+    # (a) both operands are known n-bit patterns with small n: exact bit-blasting
+    wa = _width_of(ta); wb = _width_of(tb)
+    if wa is not None and wb is not None and max(wa, wb) <= BITBLAST_MAX:
+        n = max(wa, wb)
+        mkey = ('bb', op, ta.get_id(), tb.get_id())
+        hit = CTX.mod_memo.get(mkey)
+        if hit is not None:
+            return SNum(hit[0])
+        ba, bb = CTX.bits(ta, n), CTX.bits(tb, n)
+        CTX.assumed_used.add('B4: &,|,^ on n-bit non-negative ints are bitwise on their binary digits (bit-blasted, n<=%d)' % BITBLAST_MAX)
+        terms = []
+        for i in range(n):
+            if op == 'and':
+                bit = z3.If(z3.And(ba[i] == 1, bb[i] == 1), 1, 0)
+            elif op == 'or':
+                bit = z3.If(z3.Or(ba[i] == 1, bb[i] == 1), 1, 0)
+            else:
+                bit = z3.If(ba[i] != bb[i], 1, 0)
+            terms.append(bit * (1 << i))
+        r = z3.simplify(z3.Sum(terms)) if terms else z3.IntVal(0)
+        res = CTX.fresh('bw', 'int')
+        CTX.solver.add(res == r)
+        CTX.width_hint[res.get_id()] = (n, res)
+        CTX.mod_memo[mkey] = (res, ta, tb)
+        return SNum(res)
+    # (b) uninterpreted bit function with range facts for non-negative operands (B4)
     CTX.assumed_used.add('B4: &,|,^ uninterpreted on ints with range facts')
     f = CTX.ufunc('bit_' + op, 'int', 'int', 'int')
     r = f(ta, tb)
     key = ('bit', op, ta.get_id(), tb.get_id())
+    CTX.approx_used = True        # uninterpreted: counter-models must be confirmed by replay
+    if wa is not None and wb is not None:
+        CTX.width_hint[r.get_id()] = (max(wa, wb), r)
     if key not in CTX.mod_memo:
         CTX.mod_memo[key] = True
         nn = z3.And(ta >= 0, tb >= 0)
+        if wa is not None and wb is not None:
+            CTX.solver.add(r >= 0, r < (1 << max(wa, wb)))
         if op == 'and':
             CTX.solver.add(z3.Implies(nn, z3.And(r >= 0, r <= ta, r <= tb)))
         elif op == 'or':
@@ -981,6 +1039,18 @@ def _int_bitop(op, a, b):
         else:
             CTX.solver.add(z3.Implies(nn, z3.And(r >= 0, r <= ta + tb)))
     return SNum(r)
+
+
+BITBLAST_MAX = 12
+
+def _width_of(t):
+    """n if the Int term t is known (by construction) to lie in [0, 2^n)"""
+    if z3.is_int_value(t):
+        v = t.as_long()
+        return v.bit_length() if v >= 0 else None
+    h = CTX.width_hint.get(t.get_id())
+    return h[0] if h is not None else None
+
 
 def _sign_fork(b, what):
     """Concrete sign of divisor b (+1 / -1); forks when symbolic; 0 -> ZeroDivisionError."""
@@ -1050,7 +1120,7 @@ def _truediv(a, b):
         top = z3.simplify(iw * den)
         sgn = 1 if num > 0 else -1
         num = abs(num)
-        ok = CTX.prove('fp-exact:quotient-divisible', CTX.mod(top, num) == 0, kind='side')
+        ok = CTX.valid(CTX.mod(top, num) == 0)
         if not ok:
             raise Undecided('float quotient not exactly representable')
         return float_result(z3.simplify(CTX.div(top, num) * sgn), g, 'float/const')
